@@ -174,7 +174,7 @@ def base(draw):
     if kind == 'ih':
         n = max(n, 1)
         labels = draw(gen.tree_labels_n(n))
-        return {'kind': 'ih', 'labels': labels, 'route': draw(st.sampled_from(['from_labels', 'reorder'])), 'go': go,
+        return {'kind': 'ih', 'labels': labels, 'route': draw(st.sampled_from(['from_labels', 'reorder'])), 'go': go, 'token': draw(st.booleans()),
                 'perm': draw(st.permutations(list(range(len(labels)))))}
     if kind == 'ih_product':
         a = draw(st.lists(st.sampled_from(['a', 'b', 'c', 'd']), min_size=1, max_size=3, unique=True))
@@ -209,6 +209,19 @@ def construct(b):
     if kind == 'ih':
         cls = sf.IndexHierarchyGO if go else sf.IndexHierarchy
         if route == 'from_labels':
+            tok = '<same>'
+            if b.get('token') and labels and not any(isinstance(x, np.datetime64) or (isinstance(x, str) and x == tok) for t in labels for x in t):
+                # the outer depths written with a continuation token wherever the value repeats the one above
+                rows, prev = [], None
+                for t in labels:
+                    row = list(t)
+                    if prev is not None:
+                        for d in range(len(t) - 1):
+                            if t[:d + 1] == prev[:d + 1]:
+                                row[d] = tok
+                    rows.append(tuple(row))
+                    prev = t
+                return cls.from_labels(rows, continuation_token=tok)
             return gen.build_index({'kind': 'ih', 'labels': labels}, go=go)
         ctors = [sf.IndexDate if all(isinstance(t[d], np.datetime64) for t in labels) else sf.Index for d in range(len(labels[0]))] if labels else None
         if route == 'reorder':
